@@ -308,6 +308,39 @@ Definition mux_clear_all (s : state2) (u : handle) : state2 * result :=
            <| xgids ::= <[u := ∅]> |> <| xfixed ::= <[u := ∅]> |>)
   end.
 
+(* ---- Message.UpdateSizeByte, Bus.SetType ------------------------------------------------------------------ *)
+Definition set_base (s : state2) (b : state) : state2 := s <| l3 := (l3 s) <| base := b |> |>.
+
+(* NodeInterface.verifyMessageSize of the sender: the bus the sender is attached to, if any *)
+Definition sender_bus_too_big (b : state) (M : msg_rec) (n : Z) : bool :=
+  match m_sender M with
+  | Some i => match ifaces b !! i with Some Ii => parent_bus_too_big b (i_parent Ii) n | None => false end
+  | None => false
+  end.
+
+(* Message.UpdateSizeByte: negative; unchanged; size in bits not representable; refused by the bus of the
+   sender; layout.resize: the last signal would no longer fit (geometry: oracle bit, cause TooSmall) *)
+Definition msg_resize (s : state2) (m : handle) (n : Z) (fits : bool) : state2 * result :=
+  let b := base (l3 s) in
+  match msgs b !! m with
+  | None => bad2 s
+  | Some M =>
+    if (n <? 0)%Z then err2 s Negative WMessageSize
+    else if (m_size M =? n)%Z then ok2 s
+    else if (2 ^ 60 - 1 <? n)%Z then err2 s TooBig WMessageSize
+    else if sender_bus_too_big b M n then err2 s TooBig WMessageSize
+    else if negb fits then err2 s TooSmall WMessageSize
+    else ok2 (set_base s (b <| msgs := <[m := M <| m_size := n |>]> (msgs b) |>))
+  end.
+
+(* Bus.SetType: a plain assignment (nothing is verified against the messages already on the bus) *)
+Definition bus_set_type (s : state2) (bh : handle) (t : Z) : state2 * result :=
+  let b := base (l3 s) in
+  match buses b !! bh with
+  | None => bad2 s
+  | Some B => ok2 (set_base s (b <| buses := <[bh := B <| b_type := t |>]> (buses b) |>))
+  end.
+
 (* ---- Clone of an enum value / of an enum -------------------------------------------------------------- *)
 (* SignalEnumValue.Clone: a new value with the same name and index and no parent *)
 Definition eval_clone (s : state2) (v : handle) : state2 * result :=
@@ -361,7 +394,9 @@ Inductive op2 :=
   | MuxClearGroup (u : handle) (g : Z)
   | MuxClearAll (u : handle)
   | EnumClone (e : handle)                          (* SignalEnum.Clone *)
-  | EvalClone (v : handle).                         (* SignalEnumValue.Clone *)
+  | EvalClone (v : handle)                          (* SignalEnumValue.Clone *)
+  | MsgResize (m : handle) (n : Z) (fits : bool)    (* Message.UpdateSizeByte *)
+  | BusSetType (b : handle) (t : Z).                (* Bus.SetType *)
 
 Definition step2 (s : state2) (o : op2) : state2 * result :=
   match o with
@@ -379,6 +414,8 @@ Definition step2 (s : state2) (o : op2) : state2 * result :=
   | MuxClearAll u => mux_clear_all s u
   | EnumClone e => enum_clone s e
   | EvalClone v => eval_clone s v
+  | MsgResize m n f => msg_resize s m n f
+  | BusSetType b t => bus_set_type s b t
   end.
 
 Definition run2 (ops : list op2) : state2 := fold_left (λ s o, (step2 s o).1) ops init2.
